@@ -3,6 +3,7 @@ package eng
 import (
 	"fmt"
 	"go/types"
+	"math"
 	"strings"
 
 	"golang.org/x/tools/go/ssa"
@@ -30,6 +31,9 @@ func (x *Exec) callCommon(f *frame, ins ssa.Instruction, c *ssa.CallCommon, fnv 
 	u := x.U
 	path := f.key(x, ins)
 	if c.IsInvoke() {
+		if ov, ok := fnv.(OpaqueV); ok && ov.What == "rtype" {
+			return x.rtypeMethod(ov, c.Method.Name(), ins)
+		}
 		iv := fnv.(IfaceV)
 		x.oblige("nil", u.And(g, u.Eq(iv.Tag, u.Const(16, 0))), "method call on nil interface: "+c.Method.Name(), ins.Pos())
 		var res Value
@@ -348,6 +352,18 @@ func (x *Exec) builtin(f *frame, ins ssa.Instruction, b *ssa.Builtin, c *ssa.Cal
 		return nil
 	case "print", "println":
 		return nil
+	case "Sizeof":
+		return u.Const(64, 8)
+	case "close":
+		if ch, ok := args[0].(OpaqueV); ok && ch.What == "chan" {
+			old := x.chanClosed[ch.ID]
+			if old == nil {
+				old = u.False
+			}
+			x.oblige("panic", u.And(g, old), "close of closed channel", ins.Pos())
+			x.chanClosed[ch.ID] = u.Or(old, x.act(g))
+		}
+		return nil
 	}
 	x.fail("unsupported builtin %s(%T) at %s", b.Name(), args[0], x.pos(ins.Pos()))
 	return nil
@@ -468,7 +484,20 @@ func (x *Exec) stub(f *frame, ins ssa.Instruction, fn *ssa.Function, name string
 		return u.Ite(u.Eq(s, u.Const(StrW, 0)), seed, h), true
 	case xsyncPath + ".runtime_fastrand":
 		return x.Input(f, ins, "fastrand", 32, g), true
+	case "reflect.TypeOf":
+		iv, ok := args[0].(IfaceV)
+		if !ok || !iv.Tag.IsConst() {
+			x.fail("reflect.TypeOf of a value whose dynamic type is not static at %s", x.pos(pos))
+		}
+		return OpaqueV{What: "rtype", ID: int(iv.Tag.Val)}, true
+	case xsyncPath + ".runtime_typehash":
+		return x.typehash(f, ins, args, g), true
+	case xsyncPath + ".runtime_memhash":
+		return x.memhash(f, ins, args, g), true
 	case xsyncPath + ".defaultHasher":
+		if x.Cfg.RealHasher {
+			return nil, false
+		}
 		targs := fn.TypeArgs()
 		if len(targs) != 1 {
 			x.fail("defaultHasher without type argument")
@@ -476,6 +505,18 @@ func (x *Exec) stub(f *frame, ins ssa.Instruction, fn *ssa.Function, name string
 		return FuncV{Alts: []FAlt{{G: u.True, Stub: "hasher:" + targs[0].String(), Binds: []Value{typeBox{targs[0]}}}}}, true
 	case xsyncPath + ".parallelism":
 		return u.Const(32, 16), true
+	case "math.Copysign":
+		a, b := args[0].(FloatV), args[1].(FloatV)
+		r := FloatV{}
+		for _, p := range a.Alts {
+			for _, q := range b.Alts {
+				gg := u.And(p.G, q.G)
+				if !gg.IsFalse() {
+					r.Alts = append(r.Alts, FlAlt{gg, math.Copysign(p.F, q.F)})
+				}
+			}
+		}
+		return r, true
 	case "math/bits.TrailingZeros64":
 		return u.Ctz(args[0].(*Term)), true
 	// ----- atomics -----
@@ -787,6 +828,98 @@ func (x *Exec) intrinsic(f *frame, ins ssa.Instruction, fn *ssa.Function, name s
 		return n, true
 	case "VxNote":
 		return nil, true
+	case "VxRunSpawned", "VxRunFinalizer":
+		// run the body of the i-th goroutine started so far (resp. the i-th registered finalizer) as a call
+		it := args[0].(*Term)
+		if !it.IsConst() {
+			x.fail("%s needs a constant index", name)
+		}
+		list := x.Spawned
+		if name == "VxRunFinalizer" {
+			list = x.Finalizers
+		}
+		if int(it.Val) >= len(list) {
+			x.oblige("assert", g, name+": no such goroutine/finalizer was registered", ins.Pos())
+			return nil, true
+		}
+		sp := list[it.Val]
+		fv, ok := sp.Fn.(FuncV)
+		if iv, isI := sp.Fn.(IfaceV); isI {
+			for _, pv := range iv.Pay {
+				if ff, ok2 := pv.(FuncV); ok2 {
+					fv, ok = ff, true
+				}
+			}
+		}
+		if !ok || len(fv.Alts) != 1 {
+			x.fail("%s: not a plain closure", name)
+		}
+		sargs := sp.Args
+		if name == "VxRunFinalizer" {
+			// SetFinalizer(obj any, fn any): the finalizer receives obj's dynamic value
+			if iv, isI := sp.Args[0].(IfaceV); isI {
+				for _, pv := range iv.Pay {
+					sargs = []Value{pv}
+				}
+			}
+		}
+		saved := x.parkLoops
+		savedK, hadK := x.Cfg.Unwind[baseName(fv.Alts[0].Fn)]
+		x.parkLoops = name == "VxRunSpawned"
+		if x.parkLoops {
+			x.Cfg.Unwind[baseName(fv.Alts[0].Fn)] = 1
+		}
+		x.CallFunction(fv.Alts[0].Fn, sargs, fv.Alts[0].Binds, u.And(g, sp.G), f.key(x, ins)+":spawn")
+		x.parkLoops = saved
+		if hadK {
+			x.Cfg.Unwind[baseName(fv.Alts[0].Fn)] = savedK
+		} else {
+			delete(x.Cfg.Unwind, baseName(fv.Alts[0].Fn))
+		}
+		return nil, true
+	case "VxSpawnReaches":
+		it := args[0].(*Term)
+		if !it.IsConst() || int(it.Val) >= len(x.Spawned) {
+			return u.False, true
+		}
+		r := u.Bool(x.reaches(x.Spawned[it.Val], args[1]))
+		x.addStream("vx.reaches", StreamEnt{G: g, T: x.toBV64(r), Thr: -1})
+		return r, true
+	case "VxFinalizerOn":
+		// is a finalizer registered on the object p points to?
+		r := u.False
+		for _, fz := range x.Finalizers {
+			if x.sameObject(fz.Args[0], args[0]) {
+				r = u.Or(r, fz.G)
+			}
+		}
+		x.addStream("vx.finalizer", StreamEnt{G: g, T: x.toBV64(r), Thr: -1})
+		return r, true
+	case "VxChanClosed":
+		var ch OpaqueV
+		switch a := args[0].(type) {
+		case OpaqueV:
+			ch = a
+		case IfaceV:
+			for _, pv := range a.Pay {
+				if o, ok := pv.(OpaqueV); ok {
+					ch = o
+				}
+			}
+		}
+		cl := x.chanClosed[ch.ID]
+		if cl == nil {
+			cl = u.False
+		}
+		x.addStream("vx.closed", StreamEnt{G: g, T: x.toBV64(cl), Thr: -1})
+		return cl, true
+	case "VxTickerNanos":
+		var d *Term = u.Const(64, 0)
+		for _, tk := range x.tickers {
+			d = u.Ite(tk.G, tk.D, d)
+		}
+		x.addStream("vx.ticker", StreamEnt{G: g, T: d, Thr: -1})
+		return d, true
 	}
 	return x.intrinsic2(f, ins, fn, name, args, g)
 }
@@ -803,4 +936,258 @@ func (x *Exec) elemPtr(base PtrV, j, stride int) PtrV {
 		r.Alts = append(r.Alts, PAlt{al.G, al.Addr + j*stride})
 	}
 	return r
+}
+
+
+var reflectKind = map[types.BasicKind]uint64{
+	types.Bool: 1, types.Int: 2, types.Int8: 3, types.Int16: 4, types.Int32: 5, types.Int64: 6,
+	types.Uint: 7, types.Uint8: 8, types.Uint16: 9, types.Uint32: 10, types.Uint64: 11, types.Uintptr: 12,
+	types.Float32: 13, types.Float64: 14, types.Complex64: 15, types.Complex128: 16, types.String: 24, types.UnsafePointer: 26,
+}
+
+func (x *Exec) rtypeMethod(ov OpaqueV, name string, ins ssa.Instruction) Value {
+	T := x.TR.Type(ov.ID)
+	switch name {
+	case "Elem":
+		switch ut := T.Underlying().(type) {
+		case *types.Pointer:
+			return OpaqueV{What: "rtype", ID: x.TR.ID(ut.Elem())}
+		case *types.Slice:
+			return OpaqueV{What: "rtype", ID: x.TR.ID(ut.Elem())}
+		case *types.Array:
+			return OpaqueV{What: "rtype", ID: x.TR.ID(ut.Elem())}
+		}
+		x.fail("reflect.Type.Elem on %v", T)
+	case "Kind":
+		var k uint64
+		switch ut := T.Underlying().(type) {
+		case *types.Basic:
+			k = reflectKind[ut.Kind()]
+		case *types.Array:
+			k = 17
+		case *types.Chan:
+			k = 18
+		case *types.Signature:
+			k = 19
+		case *types.Interface:
+			k = 20
+		case *types.Map:
+			k = 21
+		case *types.Pointer:
+			k = 22
+		case *types.Slice:
+			k = 23
+		case *types.Struct:
+			k = 25
+		}
+		return x.U.Const(64, k)
+	}
+	x.fail("reflect.Type.%s not modelled at %s", name, x.pos(ins.Pos()))
+	return nil
+}
+
+// eqLeaves flattens a value of type t into terms that are equal iff the values
+// are == in Go (floats: +0 and -0 coincide; interfaces: dynamic type id + value).
+func (x *Exec) eqLeaves(t types.Type, v Value, out []*Term) []*Term {
+	u := x.U
+	switch vv := v.(type) {
+	case *Term:
+		return append(out, x.toBV64(vv))
+	case FloatV:
+		var r *Term = u.Const(64, 0)
+		for i := len(vv.Alts) - 1; i >= 0; i-- {
+			f := vv.Alts[i].F
+			if f == 0 {
+				f = 0 // -0 -> +0
+			}
+			r = u.Ite(vv.Alts[i].G, u.Const(64, math.Float64bits(f)), r)
+		}
+		return append(out, r)
+	case PtrV:
+		var r *Term = u.Const(64, 0)
+		for i := len(vv.Alts) - 1; i >= 0; i-- {
+			r = u.Ite(vv.Alts[i].G, u.Const(64, uint64(vv.Alts[i].Addr)), r)
+		}
+		return append(out, r)
+	case AggV:
+		switch ut := t.Underlying().(type) {
+		case *types.Struct:
+			for i := range vv.Elems {
+				out = x.eqLeaves(ut.Field(i).Type(), vv.Elems[i], out)
+			}
+		case *types.Array:
+			for i := range vv.Elems {
+				out = x.eqLeaves(ut.Elem(), vv.Elems[i], out)
+			}
+		}
+		return out
+	case IfaceV:
+		// dynamic type id, then one combined value word per possible dynamic type
+		out = append(out, u.Zext(vv.Tag, 64))
+		var val *Term = u.Const(64, 0)
+		for _, id := range sortedKeys(vv.Pay) {
+			ls := x.eqLeaves(x.TR.Type(id), vv.Pay[id], nil)
+			var h *Term = u.Const(64, uint64(id))
+			for _, l := range ls {
+				h = u.App("mix", 64, h, l)
+			}
+			val = u.Ite(u.Eq(vv.Tag, u.Const(16, uint64(id))), h, val)
+		}
+		return append(out, val)
+	}
+	x.fail("eqLeaves: unsupported key component %T", v)
+	return nil
+}
+
+// typehash models runtime.typehash(t, p, h) by its contract: t must be a type
+// descriptor and p must address a value OF THAT TYPE; the result is an
+// uninterpreted function of (t, the ==-class of that value, h).
+func (x *Exec) typehash(f *frame, ins ssa.Instruction, args []Value, g *Term) Value {
+	u := x.U
+	tt, ok := args[0].(*Term)
+	if !ok {
+		x.fail("typehash: type word is not a scalar")
+	}
+	h := args[2].(*Term)
+	p := asPtr(args[1])
+	ids := PossibleConsts(tt)
+	if ids == nil {
+		x.fail("typehash: type descriptor not enumerable")
+	}
+	x.oblige("nil", u.And(g, u.Eq(tt, u.Const(tt.W, 0))), "runtime.typehash called with a nil type descriptor (nil interface key)", ins.Pos())
+	var res *Term = u.Const(64, 0)
+	for _, id := range ids {
+		if id == 0 || id == 0xFFFF {
+			continue
+		}
+		T := x.TR.Type(int(id))
+		if T == nil {
+			continue
+		}
+		is := u.Eq(tt, u.Const(tt.W, id))
+		// only the alternatives of p that can coexist with this type descriptor
+		pp := PtrV{}
+		for _, al := range p.Alts {
+			if x.feasible(u.AndN(x.act(g), is, al.G)) {
+				pp.Alts = append(pp.Alts, al)
+			}
+		}
+		x.nilCheck(pp, u.And(g, is), "typehash", ins.Pos())
+		v := x.loadRawAs(pp, T)
+		ls := x.eqLeaves(T, v, nil)
+		var hv *Term = u.App("mix", 64, u.Const(64, id), h)
+		for _, l := range ls {
+			hv = u.App("mix", 64, hv, l)
+		}
+		res = u.Ite(is, hv, res)
+	}
+	return res
+}
+
+// memhash(p, h, s): hash of s raw bytes at p: an uninterpreted function of the
+// raw (not ==-normalised) content.
+func (x *Exec) memhash(f *frame, ins ssa.Instruction, args []Value, g *Term) Value {
+	u := x.U
+	p := asPtr(args[0])
+	h := args[1].(*Term)
+	var res *Term = u.Const(64, 0)
+	for i := len(p.Alts) - 1; i >= 0; i-- {
+		al := p.Alts[i]
+		var hv *Term = u.App("mix", 64, u.Const(64, 0xABCD), h)
+		if al.Addr > 0 && al.Addr < len(x.cells) {
+			switch cv := x.cells[al.Addr].(type) {
+			case *Term:
+				hv = u.App("mix", 64, hv, x.toBV64(cv))
+			case FloatV:
+				var r *Term = u.Const(64, 0)
+				for j := len(cv.Alts) - 1; j >= 0; j-- {
+					r = u.Ite(cv.Alts[j].G, u.Const(64, math.Float64bits(cv.Alts[j].F)), r)
+				}
+				hv = u.App("mix", 64, hv, r)
+			default:
+				x.fail("memhash over a %T cell not modelled", cv)
+			}
+		}
+		res = u.Ite(al.G, hv, res)
+	}
+	return res
+}
+
+
+func ptrsOf(v Value, out []int) []int {
+	switch vv := v.(type) {
+	case PtrV:
+		for _, a := range vv.Alts {
+			out = append(out, a.Addr&ifaceViewMask)
+		}
+	case IfaceV:
+		for _, p := range vv.Pay {
+			out = ptrsOf(p, out)
+		}
+	case AggV:
+		for _, e := range vv.Elems {
+			out = ptrsOf(e, out)
+		}
+	case SliceV:
+		out = ptrsOf(vv.Base, out)
+	case FuncV:
+		for _, al := range vv.Alts {
+			for _, b := range al.Binds {
+				out = ptrsOf(b, out)
+			}
+		}
+	}
+	return out
+}
+
+// reaches: can the object target points to be reached from what goroutine sp
+// holds (closure bindings and arguments), following every pointer stored in
+// the symbolic heap? (over-approximation: guards are ignored)
+func (x *Exec) reaches(sp Spawn, target Value) bool {
+	want := map[int]bool{}
+	for _, a := range ptrsOf(target, nil) {
+		if o, ok := x.ObjOf(a); ok {
+			want[o.Base] = true
+		}
+	}
+	seen := map[int]bool{}
+	var work []int
+	work = ptrsOf(sp.Fn, work)
+	for _, a := range sp.Args {
+		work = ptrsOf(a, work)
+	}
+	for len(work) > 0 {
+		a := work[len(work)-1]
+		work = work[:len(work)-1]
+		o, ok := x.ObjOf(a)
+		if !ok || a <= 0 || seen[o.Base] {
+			continue
+		}
+		seen[o.Base] = true
+		if want[o.Base] {
+			return true
+		}
+		n := o.N
+		if n == 0 {
+			n = 1
+		}
+		for c := o.Base; c < o.Base+n && c < len(x.cells); c++ {
+			work = ptrsOf(x.cells[c], work)
+		}
+	}
+	return false
+}
+
+func (x *Exec) sameObject(a, b Value) bool {
+	pa, pb := ptrsOf(a, nil), ptrsOf(b, nil)
+	for _, p := range pa {
+		for _, q := range pb {
+			oa, ok1 := x.ObjOf(p)
+			ob, ok2 := x.ObjOf(q)
+			if ok1 && ok2 && oa.Base == ob.Base {
+				return true
+			}
+		}
+	}
+	return false
 }
